@@ -2,6 +2,7 @@ import DiscretModel.Lemmas.DailyLogRun
 import DiscretModel.Lemmas.DailyLogLazy
 import DiscretModel.Lemmas.DailyLogWindow
 import DiscretModel.Lemmas.SyncMarks
+import DiscretModel.Lemmas.DailyLogUnrefs
 /-
 C09 — the daily log is a function of the stored content, nothing else.
 
@@ -298,6 +299,17 @@ theorem C09_model_local_write (w : World) (cur : Replica) (hn : IdsNodup cur)
     WInv (effectOf Defects.none w cur cur p op).cur.sigs noPending
       (markAll (effectOf Defects.none w cur cur p op).marks (effectOf Defects.none w cur cur p op).cur.log) :=
   effectOf_winv rfl w hn h p op
+
+/-- **C09 (one deletion query with several reference-deletion entries, the code as it is).** `DeletionQuery::build`
+    loops over the entries of the query; every entry that removes a reference re-dates its source row. With distinct
+    source rows, planned on the state they are applied to, the marks of the model of the code cover the day every
+    re-dated row leaves and the day it arrives on: the invariant holds again once the marks are written. -/
+theorem C09_model_unrefs (rights : Rights) (cur : Replica) (hn : IdsNodup cur)
+    (h : WInv cur.sigs noPending cur.log) (p now : Nat) (es : List UnrefEntry) (hrows : (es.map (·.row)).Nodup) :
+    WInv (opUnrefs Defects.asImplemented rights cur cur p now es).cur.sigs noPending
+      (markAll (opUnrefs Defects.asImplemented rights cur cur p now es).marks
+        (opUnrefs Defects.asImplemented rights cur cur p now es).cur.log) :=
+  opUnrefs_winv rfl rights hn h p now es hrows
 
 /-- **C09 (synchronised row of the model).** Writing a fetched row over the locally stored version (`old`, of the
     same entity) with the marks of `Defects.none` keeps the invariant and the uniqueness of row ids. -/
